@@ -20,7 +20,7 @@ func jsonMarshal(v interface{}) ([]byte, error) { return json.Marshal(v) }
 // C01 - convergence, then quiet.
 
 func TestVerif_C01_Converge(t *testing.T) {
-	n := sim.Pick(60, 1500)
+	n := sim.Pick(250, 5000)
 	rng := sim.Rand("C01")
 	for i := 0; i < n; i++ {
 		id := fmt.Sprintf("c01x%d", i)
